@@ -133,6 +133,7 @@ type node struct {
 	// violations found inside wrappers (store ordering), drained by the oracles
 	wrapViol []string
 	wrapViolPH []string
+	ownPHSigs  map[string]bool // signatures of the proposed headers this node's own signer produced
 	wrapKeys map[string]bool // kind|h|r of own votes the mirror persisted that the action store does not hold
 
 	// outgoing messages seen in gossip views, for the network harness
@@ -273,6 +274,12 @@ func (s hSigner) SignProposedHeader(ctx context.Context, ph *tmconsensus.Propose
 	err := s.inner.SignProposedHeader(ctx, ph)
 	b, _ := tmconsensus.ProposalSignBytes(ph.Header, ph.Round, ph.Annotations, s.n.w.ss)
 	s.n.t("sign", "proposal", ph.Header.Height, ph.Round, string(ph.Header.Hash), string(b))
+	if err == nil {
+		if s.n.ownPHSigs == nil {
+			s.n.ownPHSigs = map[string]bool{}
+		}
+		s.n.ownPHSigs[string(ph.Signature)] = true
+	}
 	// The node's own block becomes known to the world as block "N".
 	s.n.w.hdrs[fmt.Sprintf("N:%d", ph.Header.Height)] = ph.Header
 	return err
@@ -387,7 +394,9 @@ func (s nRoundStore) checkOwn(kind byte, h uint64, r uint32, p tmconsensus.Spars
 // whether or not the write itself is let through (crash points).
 func (s nRoundStore) SaveRoundProposedHeader(ctx context.Context, ph tmconsensus.ProposedHeader) error {
 	n := s.n
-	if ph.ProposerPubKey != nil && ph.ProposerPubKey.Equal(n.pubKey()) && len(ph.Signature) > 0 {
+	// Only proposals this node's own signer produced (the network may deliver a proposal made out in this validator's
+	// name at a height where the harness plays its part).
+	if n.ownPHSigs[string(ph.Signature)] && len(ph.Signature) > 0 {
 		ra, err := n.st.as.LoadActions(context.Background(), ph.Header.Height, ph.Round)
 		if err != nil || string(ra.ProposedHeader.Signature) != string(ph.Signature) {
 			n.wrapViolPH = append(n.wrapViolPH, fmt.Sprintf("the mirror was handed (and persists) this validator's proposed header %s for %d/%d which is not in the action store", h8(ph.Header.Hash), ph.Header.Height, ph.Round))
